@@ -101,6 +101,7 @@ def run_case(c, rng):
         return
     # equal models, made before anything ran
     copies = {'deepcopy': copy.deepcopy(wn), 'pickle': pickle.loads(pickle.dumps(wn))}
+    epa_twin = copy.deepcopy(wn)          # never simulated by anything: the reference for the EpanetSimulator comparison below
     try:
         copies['dict'] = wntr.network.from_dict(json.loads(json.dumps(wn.to_dict())))
     except Exception:
@@ -136,6 +137,22 @@ def run_case(c, rng):
             continue
         c.count('copy_runs')
         compare(c, runs[0], tr.results, 'original vs %s copy' % label, sample, 'copy_differs')
+    # The model has just been simulated (its run-time state is that of the end of the run) and was not reset: EpanetSimulator
+    # works from the definition, so it must give what it gives for a never-simulated equal model
+    if rng.random() < 0.6:
+        twin = epa_twin
+        rep_all = wn.options.time.report_timestep == 'ALL'
+        if rep_all:
+            wn.options.time.report_timestep = twin.options.time.report_timestep = wn.options.time.hydraulic_timestep
+        te1, te2 = simobs.run_epanet(wn), simobs.run_epanet(twin)
+        if te1.exception is None and te2.exception is None:
+            c.count('epanet_after_wntr_compared')
+            compare_epanet(c, te2.results, te1.results, 'EpanetSimulator on the just-simulated model vs on an untouched equal model', sample)
+        elif (te1.exception is None) != (te2.exception is None):
+            c.violate('epanet_depends_on_previous_run', 'EpanetSimulator %s on the just-simulated model but %s on an untouched equal model' % (
+                'ran' if te1.exception is None else 'raised %s' % str(te1.exception)[:80], 'ran' if te2.exception is None else 'raised %s' % str(te2.exception)[:80]), sample=sample)
+        if rep_all:
+            wn.options.time.report_timestep = twin.options.time.report_timestep = 'ALL'
     # EpanetSimulator must not alter the definition either
     if rng.random() < 0.6:
         wn.reset_initial_values()
@@ -149,6 +166,25 @@ def run_case(c, rng):
         else:
             c.count('epanet_errors')
     c.nontrivial = nontrivial
+
+
+def compare_epanet(c, r0, r1, label, sample):
+    """Two EPANET runs of equal models: identical files give identical binary results."""
+    import numpy as np
+    for group, keys in (('node', ['head', 'demand']), ('link', ['flowrate', 'status'])):
+        for key in keys:
+            a, b = getattr(r0, group)[key], getattr(r1, group)[key]
+            if list(a.index) != list(b.index) or list(a.columns) != list(b.columns):
+                c.violate('epanet_depends_on_previous_run', '%s: table %s has a different index or columns' % (label, key), sample=sample)
+                return
+            av, bv = np.asarray(a.values, dtype=float), np.asarray(b.values, dtype=float)
+            d = np.abs(av - bv)
+            tol = 1e-6 + 1e-6 * np.maximum(np.abs(av), np.abs(bv))
+            if (d > tol).any():
+                i, j = np.argwhere(d > tol)[0]
+                c.violate('epanet_depends_on_previous_run', '%s: %s[%s] at t=%s is %.9g vs %.9g' % (label, key, a.columns[j], a.index[i], bv[i, j], av[i, j]),
+                          sample=sample)
+                return
 
 
 def compare(c, r0, r1, label, sample, kind):
